@@ -73,14 +73,19 @@ def run(ctx):
     else:
         cases = gen_inputs(ctx)
     lines, impl, meta = [], [], []
+    hangs = {}
     for parts, members in cases:
         P, M = enc_parts(parts), enc_parts(members)
         nontrivial = len(members) >= 2 and any(ps for _, ps in parts)
         for kind in ("range", "rr", "sticky"):
+            if hangs.get(kind, 0) >= 2:
+                continue  # already reported as non-terminating; do not wait for more of them
             try:
-                out = enc_output(run_assignor(A, kind, parts, members))
+                out = enc_output(run_assignor(A, kind, parts, members, limit_s=3.0))
             except Exception as e:  # noqa
                 out = f"raise:{type(e).__name__}"
+                if type(e).__name__ == "AssignorHang":
+                    hangs[kind] = hangs.get(kind, 0) + 1
             if kind == "sticky":
                 lines.append(f"c14 holds sticky {P} {M} {out}")
                 impl.append("true")
